@@ -354,7 +354,13 @@ fn run_case_inner(ctx: &Ctx, case: &Case, counting: bool) -> PResult {
 				}
 			}
 			Op::Reopen => {
-				cb.reopen().map_err(|e| Fail::new("reopen-failed", format!("op {}: {}", i, e)))?;
+				let nrd = !w.nodes[head].model.nrd.is_empty();
+				if let Err(f) = cb.reopen_classified(nrd) {
+					if ctx.known_hit(&f.sig) {
+						return Ok(());
+					}
+					return Err(f);
+				}
 				st.reopen += 1;
 			}
 			Op::Compact => {
